@@ -98,6 +98,22 @@ THEOREMS = [
     co_tables mp' = Some (map (fun t : N * list N => (fst t, map new (snd t))) ts) /\\
     forall t e k, In t ts -> In e (snd t) -> off <= e + k < off + len ->
       new e + k < ilen J /\\ iget J (new e + k) = iget inp (e + k)"""),
+    ("C01_spliced_file_addresses_same_bytes", """forall (cfg : config) (lenient lenient2 : bool) (inp : input) (fuel fuel2 : nat) (o : out) (md : bytes) (pad : N),
+  max_metadata_size cfg < 4294967296 -> ilen inp <= U64MAX ->
+  (forall t, cumulative_mdat_box_size cfg = Some t -> t <= U32MAX) ->
+  mp4_sanitize cfg lenient U64MAX' inp fuel = Ok o -> o_metadata o = Some (md, pad) ->
+  let off := s_off (o_data o) in
+  let len := s_len (o_data o) in
+  let J := splice md pad inp off len in
+  ilen J <= U64MAX -> (N.to_nat (ilen J / 8) < fuel2)%nat ->
+  exists bs m ts bs2 m2,
+    tiling (cumulative_mdat_box_size cfg) inp = Some bs /\\ last_moov bs = Some m /\\ co_tables (tb_payload inp m) = Some ts /\\
+    tiling (cumulative_mdat_box_size cfg) J = Some bs2 /\\ last_moov bs2 = Some m2 /\\
+    let new := fun e : N => Z.to_N (Z.of_N e + (Z.of_N (blen md + pad) - Z.of_N off)) in
+    co_tables (tb_payload J m2) = Some (map (fun t : N * list N => (fst t, map new (snd t))) ts) /\\
+    (forall t e k, In t ts -> In e (snd t) -> off <= e + k < off + len ->
+       new e + k < ilen J /\\ iget J (new e + k) = iget inp (e + k)) /\\
+    mp4_sanitize cfg lenient2 U64MAX' J fuel2 = Ok {| o_metadata := None; o_data := {| s_off := blen md + pad; s_len := len |} |}"""),
 ]
 TRUSTED = fam.TRUSTED_COMMON + [
     "Base/AddSignedProofs.v (C20): the regenerated kernel checked_add_signed equals exact integer addition with range check",
@@ -126,7 +142,8 @@ LEVEL_TEXT = ("Coq theorems, no axioms. TOP LEVEL (whole inputs, every configura
               "C01_tables_found, C01_shape_preserved, C01_offsets_shifted (using C20's theorem for the regenerated checked_add_signed), "
               "C01_overflow_rejected, C01_rejected_only_on_overflow. C01_same_media_byte (Props/C01a.v) is the title itself: in the file the caller writes "
               "(metadata, padding, media span) position (new entry)+k holds the byte the input held at (old entry)+k, for every entry and every k "
-              "with (old entry)+k inside the media span. The model is tied to the code by the differential batch (extracted model vs the "
+              "with (old entry)+k inside the media span; C01_spliced_file_addresses_same_bytes says it with the written file read by the "
+              "specification itself (its tiling, its last moov, that payload's tables) and adds the verdict of a second run (C02 b). The model is tied to the code by the differential batch (extracted model vs the "
               "real sanitizer on rewrite layouts), and the extracted specification judges the implementation's returned metadata directly.")
 LEVEL_NOTE = ("Trusted: Coq kernel; the hand-written models Mp4/{Header,Box,San}.v (tied by the batch); Mp4/Spec.v + Mp4/ShiftSpec.v as the meaning of "
               "`chunk-offset tables`, `shifted by delta` and `the metadata read as boxes`; extraction and the OCaml driver; the Rust harness and its "
